@@ -75,6 +75,9 @@ def make_oracle(chk, lastf, case):
     def oracle(e, c):
         if e[0] == 'discr':
             x = e[1]
+            # `self.last.as_mut()` / `.as_ref()` / `.as_deref()` is Some exactly when self.last is
+            while x[0] == 'call' and isinstance(x[1], str) and x[1].startswith('std::option::Option::<') and x[1].rsplit('::', 1)[-1] in ('as_mut', 'as_ref', 'as_deref', 'as_deref_mut') and x[2]:
+                x = x[2][0]
             if x[0] == 'field' and x[2] == lastf and x[1][0] == 'param':
                 return has_last
             return None
@@ -192,6 +195,9 @@ def path_writes(f, p, lastf):
             if pl is None or pl['proj']:
                 continue
             from facts import is_mut_ref
+            if isinstance(callee, str) and callee.rsplit('::', 1)[-1] in ('as_mut', 'as_deref_mut', 'deref_mut', 'index_mut', 'iter_mut', 'last_mut', 'first_mut', 'get_mut', 'as_mut_slice', 'borrow_mut') and \
+                    callee.startswith(('std::option::Option::<', 'core::slice::<impl [T]>::', '<std::vec::Vec<T, A> as std::ops::', 'std::vec::Vec::<T, A>::')):
+                continue        # hands out a `&mut` into the place without writing it; what is done through that reference is seen where it happens
             if is_mut_ref(f.local_ty(pl['local'])):
                 l = f.refmap().get(pl['local'], (pl['local'],))
                 if l[:1] == (1,):
@@ -210,6 +216,10 @@ def remembered_is_key(f, p, lastf, kx, has_last):
     cleared = False
     filled = False
     for (k, bid, callee, args, t) in calls:
+        if isinstance(callee, str) and callee.endswith('::clone_into') and len(args) == 2:
+            l1 = arg_loc(f, t, 1)
+            if l1 is not None and l1[:2] == (1, lastf) and mentions_param(args[0], kx):
+                return True         # key.clone_into(last): the whole remembered key is replaced by the offered one
         l0 = arg_loc(f, t, 0)
         if l0 is None or l0[:2] != (1, lastf) or not isinstance(callee, str):
             continue
